@@ -171,6 +171,11 @@ class World:
         while self.step(rank) == "yield":
             pass
 
+    def abandon(self, rank):
+        """the consumer drops the live iterator without exhausting it"""
+        self.its.pop(rank)
+        self._ev("abandon", rank)
+
     def run_skeleton(self, ops):
         """Execute a TLC behaviour's operations.  If the implementation does something else than
         the skeleton's step (yields where the spec ends, refuses where the spec constructs, ...),
@@ -190,6 +195,11 @@ class World:
                     self.diverged = "no sampler object for %s" % op
                     return
                 self.begin(op, r, o["a"])
+            elif op == "abandon":
+                if r not in self.its:
+                    self.diverged = "no live iterator to abandon"
+                    return
+                self.abandon(r)
             else:
                 if r not in self.its:
                     self.diverged = "no live iterator for %s" % op
